@@ -95,6 +95,17 @@ CLAIMED = {
             'not modelled; completeness/soundness of lookups for arbitrary feature counts is not proved (bounded only); '
             'findFeaturesAtPysamAlign and GTF loading not under contract.',
             '5/C16'),
+    'C18': ('Proof that AlleleResolver.__init__ leaves, for every flag combination (eager / lazy / cache, with or without a '
+            'contig), the variants either loaded or marked for loading on first lookup; that getAllelesAt answers from the table, '
+            'loading a missing contig exactly once in lazy mode (so eager and lazy answers coincide); and a loop-body contract on '
+            'the real fetchChromosome: for an arbitrary VCF record and arbitrary state left by earlier records, the site is kept '
+            'iff it is an informative single-nucleotide site with every selected sample called and no ignored conversion, and the '
+            'stored map lists under each base exactly the selected samples whose genotype contains it.',
+            'pysam.VariantFile (parsing, genotype access, fetch) assumed; records modelled with 2 samples x 2 alleles (symbolic '
+            'allele strings; missing-allele pattern, sample selection, ignored conversions as case parameters); phased mode only; '
+            'on-disk cache codec (write_cache/read_cached), cache atomicity and contig access orders beyond one lookup are not '
+            'under contract.',
+            '5/C18'),
 }
 
 NOT_YET = 'check not built yet (framework under construction; see DESIGN.md section 5)'
